@@ -19,6 +19,41 @@ class Infeasible(Exception):
 
 
 _ENTAIL_CACHE = {}
+
+
+def cli_check(formulas, timeout_ms):
+    """sat/unsat/unknown by a z3 process under a hard wall-clock limit: the
+    in-process solver does not honour its timeout on some array/lambda
+    queries and cannot be interrupted"""
+    import os
+    import subprocess
+    import tempfile
+    sv = z3.Solver()
+    for f in formulas:
+        sv.add(f)
+    text = sv.to_smt2()
+    d = os.path.join(os.path.dirname(os.path.dirname(
+        os.path.abspath(__file__))), '.work')
+    os.makedirs(d, exist_ok=True)
+    fd, path = tempfile.mkstemp(suffix='.smt2', dir=d)
+    try:
+        with os.fdopen(fd, 'w') as f:
+            f.write(text)
+        secs = max(1, int(timeout_ms / 1000.0 + 0.999))
+        try:
+            p = subprocess.run(['z3-new', '-t:%d' % timeout_ms, path],
+                               stdout=subprocess.PIPE,
+                               stderr=subprocess.DEVNULL, text=True,
+                               timeout=secs + 1.5)
+            out = p.stdout.strip().split('\n', 1)[0].strip()
+        except subprocess.TimeoutExpired:
+            out = 'unknown'
+    finally:
+        try:
+            os.unlink(path)
+        except OSError:
+            pass
+    return out if out in ('sat', 'unsat') else 'unknown'
 AXIOMATIZER = [None]
 STATS = {'entail_calls': 0, 'entail_time': 0.0}
 
@@ -108,22 +143,18 @@ class State:
         self.roots[ref.root] = rebuild(self.roots[ref.root], ref.path)
 
     # --- solver access on the path condition
-    def check(self, extra=None, timeout_ms=2000):
+    def check(self, extra=None, timeout_ms=2000, axioms=True):
         """sat / unsat / unknown of pc (and extra)"""
         import time
         fs = list(self.pc) + ([extra] if extra is not None else [])
-        key = tuple(sorted(f.get_id() for f in fs))
+        key = (axioms,) + tuple(sorted(f.get_id() for f in fs))
         if key in _ENTAIL_CACHE:
             return _ENTAIL_CACHE[key]
-        s = z3.Solver()
-        s.set('timeout', timeout_ms)
-        for f in fs:
-            s.add(f)
-        if AXIOMATIZER[0] is not None:
-            for f in AXIOMATIZER[0](fs):
-                s.add(f)
+        allf = list(fs)
+        if AXIOMATIZER[0] is not None and axioms:
+            allf.extend(AXIOMATIZER[0](fs))
         t0 = time.time()
-        r = s.check()
+        r = cli_check(allf, timeout_ms)
         STATS['entail_calls'] += 1
         STATS['entail_time'] += time.time() - t0
         res = str(r)
@@ -139,7 +170,11 @@ class State:
         return self.check(neg(cond)) == 'unsat'
 
     def feasible(self):
-        return self.check() != 'unsat'
+        """path pruning: first without the spec unfoldings (cheap; an unsat
+        here is definitive), with them only if that was inconclusive"""
+        if self.check(axioms=False, timeout_ms=300) == 'unsat':
+            return False
+        return self.check(timeout_ms=600) != 'unsat'
 
 
 _KEEP = []
